@@ -116,6 +116,9 @@ def run(tier, seed):
         # ---- part (c): node level - every RPC kind a gossip node serves is limited by the rate configured FOR THAT KIND
         for k in range(1 if tier == "quick" else 5):
             verdict, answered, ntrace = _node_rates(d, seed, k)
+            if sum(answered.values()) == 0:
+                # a loaded machine: once more before calling it a harness problem
+                verdict, answered, ntrace = _node_rates(d, seed, k + 50)
             node_rate_runs.append(answered)
             if sum(answered.values()) == 0:
                 raise common.ToolError("node_rates: the node answered no call at all (harness problem)")
